@@ -42,6 +42,10 @@ func ftpLine(t, a int) string {
 		return "QUIT"
 	case 10:
 		return "CWD"
+	case 11:
+		return "PASV"
+	case 12:
+		return "EPSV"
 	}
 	return "XYZZY"
 }
@@ -57,7 +61,7 @@ var ftpRev = func() map[string]int {
 	for a := 1; a <= 9; a++ {
 		add(4, a)
 	}
-	for _, t := range []int{3, 5, 6, 7, 8, 9, 10} {
+	for _, t := range []int{3, 5, 6, 7, 8, 9, 10, 11, 12} {
 		add(t, 0)
 	}
 	return m
@@ -79,13 +83,21 @@ func smtpLine(t int) string {
 		return "RSET"
 	case 8:
 		return "QUIT"
+	case 10:
+		return "BDAT 22"
+	case 11:
+		return "BDAT 4"
+	case 12:
+		return "BDAT 22 LAST"
+	case 13:
+		return "BDAT 4 LAST"
 	}
 	return "FROB"
 }
 
 var smtpRev = func() map[string]int {
 	m := map[string]int{}
-	for _, t := range []int{1, 2, 3, 4, 6, 7, 8, 9} {
+	for _, t := range []int{1, 2, 3, 4, 6, 7, 8, 9, 10, 11, 12, 13} {
 		m[smtpLine(t)] = t
 	}
 	return m
@@ -138,8 +150,13 @@ func payload(svc, t, a int) []byte {
 	case FTP:
 		return []byte(ftpLine(t, a) + "\r\n")
 	case SMTP:
-		if t == 5 {
-			return []byte(fmt.Sprintf("Subject: s%d\r\n\r\nhello from message %d\r\n.\r\n", a, a))
+		switch t {
+		case 5:
+			return []byte(fmt.Sprintf("Subject: s%04d\r\n\r\nhello\r\n.\r\n", a%10000))
+		case 10, 12: // header chunk, 22 bytes
+			return []byte(fmt.Sprintf("%s\r\nSubject: s%04d\r\n\r\nAAAA", smtpLine(t), a%10000))
+		case 11, 13: // body chunk, 4 bytes
+			return []byte(smtpLine(t) + "\r\nBBBB")
 		}
 		return []byte(smtpLine(t) + "\r\n")
 	case TELNET:
@@ -174,6 +191,12 @@ func payload(svc, t, a int) []byte {
 			return []byte("HEAD /c HTTP/1.0\r\n\r\n")
 		}
 		return []byte("BLAH\r\n\r\n")
+	case MCUDP:
+		l, ok := memcachedLine[t]
+		if !ok {
+			l = "bogus"
+		}
+		return append([]byte{0, 1, 0, 0, 0, 1, 0, 0}, []byte(l+"\r\n")...)
 	case TFTP:
 		file := fmt.Sprintf("f%d", a)
 		switch t {
@@ -247,6 +270,18 @@ func canonReplies(svc int, b []byte) []int {
 			}
 			if svc == FTP && n == 250 {
 				d = dirCode(strings.TrimPrefix(l[4:], "Directory changed to "))
+			}
+			if svc == FTP && n == 227 {
+				// "Entering Passive Mode (h1,h2,h3,h4,p1,p2)": the address must be 192.0.2.x -> x
+				d = 999
+				if i := strings.Index(l, "("); i >= 0 {
+					q := strings.Split(strings.Trim(l[i:], "()"), ",")
+					if len(q) == 6 && q[0] == "192" && q[1] == "0" && q[2] == "2" {
+						if x, err := strconv.Atoi(q[3]); err == nil {
+							d = x
+						}
+					}
+				}
 			}
 			out = append(out, n*1000+d)
 		}
@@ -364,7 +399,8 @@ func canonEvent(svc int, ev event.Event, sids map[string]int) OEv {
 	var o OEv
 	o.Conn = connOfAddr(asStr(m["source-ip"]), asInt(m["source-port"]))
 	o.DPort = asInt(m["destination-port"])
-	if o.DPort < 0 || !net.ParseIP(asStr(m["destination-ip"])).Equal(localIP) {
+	// the destination must be the address the carried connection was accepted on
+	if o.DPort < 0 || !net.ParseIP(asStr(m["destination-ip"])).Equal(localIPOf(o.Conn)) {
 		o.DPort = 0
 	}
 	sid := ""
@@ -395,7 +431,14 @@ func canonEvent(svc int, ev event.Event, sids map[string]int) OEv {
 	case SMTP:
 		if ty == "email" {
 			o.Type = 2
-			o.Arg = asInt(strings.TrimPrefix(asStr(m["smtp.Subject"]), "s"))
+			subj := asInt(strings.TrimLeft(strings.TrimPrefix(asStr(m["smtp.Subject"]), "s"), "0"))
+			if asStr(m["smtp.Subject"]) == "s0000" {
+				subj = 0
+			}
+			o.Arg = 9998
+			if subj >= 0 {
+				o.Arg = 1000*subj + len(asStr(m["smtp.body"]))
+			}
 		} else {
 			o.Type = 1
 			if t, ok := smtpRev[asStr(m["smtp.line"])]; ok {
@@ -440,7 +483,7 @@ func canonEvent(svc int, ev event.Event, sids map[string]int) OEv {
 		default:
 			o.Arg = 99
 		}
-	case MEMCACHED:
+	case MEMCACHED, MCUDP:
 		if ty == "memcached-command" {
 			o.Type = 1
 			o.Arg = 99
